@@ -136,7 +136,9 @@ Definition notes_of (evs : list event) : list note := map note_of_event (filter 
 Definition track_rel (tr : track) (t : tstate) : Prop :=
   tr_timepos tr = t_pos t /\ tr_channel tr = t_ch t /\ tr_length tr = t_len t /\ tr_octave tr = t_oct t /\
   tr_velocity tr = t_vel t /\ tr_qlen tr = t_gate t /\ tr_timing tr = t_timing t /\ tr_track_key tr = t_key t /\
-  tr_tie_notes tr = [] /\ Permutation (notes_of (tr_events tr)) (t_notes t).
+  tr_tie_notes tr = [] /\
+  tr_rsv tr = rsv_new /\     (* nothing reserved: no onNote / onCycle / onTime list, no controller reservation, random widths 0 *)
+  Permutation (notes_of (tr_events tr)) (t_notes t).
 
 Definition R (s : song) (p : perf) : Prop :=
   Forall2 track_rel (s_tracks s) (p_tracks p) /\
